@@ -128,22 +128,28 @@ def _process_step_expression(
             return (new_target_assets, None)
 
         case 'transitive':
-            # The transitive expression is very similar to the field
-            # expression, but it proceeds recursively until no target is
-            # found and it and it sets the new targets to the entire list
-            # of assets identified during the entire transitive recursion.
+            # The transitive expression applies its sub-expression
+            # repeatedly, starting from the current target assets, until no
+            # asset that was not already found is reached. The new targets
+            # are all of the assets identified along the way. Each asset is
+            # expanded only once so that cyclic and self associations
+            # terminate.
             new_target_assets = []
-            for target_asset in target_assets:
-                new_target_assets.extend(model.\
-                    get_associated_assets_by_field_name(target_asset,
-                        step_expression['stepExpression']['name']))
-            if new_target_assets:
-                (additional_assets, _) = _process_step_expression(
-                    lang_graph, model, new_target_assets, step_expression)
-                new_target_assets.extend(additional_assets)
-                return (new_target_assets, None)
-            else:
-                return ([], None)
+            visited_ids = []
+            frontier = target_assets
+            while frontier:
+                next_frontier = []
+                for target_asset in frontier:
+                    (reached_assets, _) = _process_step_expression(
+                        lang_graph, model, [target_asset],
+                        step_expression['stepExpression'])
+                    for asset in reached_assets:
+                        if asset.id not in visited_ids:
+                            visited_ids.append(asset.id)
+                            new_target_assets.append(asset)
+                            next_frontier.append(asset)
+                frontier = next_frontier
+            return (new_target_assets, None)
 
         case 'subType':
             new_target_assets = []
